@@ -1,6 +1,19 @@
 """Scenario generator and runner shared by C01, C02, C04 (and reused by C03/C10): a request, a schema,
 a configuration and an emulated token, run through the real `sign_bundles()` / `create_skr()` and
-through the model by log replay."""
+through the model by log replay.
+
+Input classes every consumer of `gen_scenario` sees (all of them well-formed: signing is expected to complete):
+  * SUB-SECOND instants: the scenario start and, per bundle, inception and expiration carry microsecond components
+    (`SUBSECOND_US`: .000001 / .4 / .499999 / .5 / .500001 / .6 / .999999, on even and odd seconds) about six times out of ten
+    (`Scenario.sub_us`); the declared policy durations stay whole.
+  * every legal SPELLING of the configured values (`respell_entry`): `ds_sha256` in upper / lower / mixed case (pattern
+    ^[0-9a-fA-F]+$); `key_tag` present / absent; `valid_from` / `valid_until` written with `+00:00`, `Z`, a non-UTC offset, without
+    designator (UTC), with a space for the `T`, with 1..6 fraction digits, or as the datetime objects a YAML loader yields (aware UTC,
+    aware with another offset, naive) -- far from the bundles, or EXACTLY on the first inception / last expiration (the window is
+    inclusive) and one microsecond outside of nothing (1 us before / after); `valid_until` present / absent;
+  * key NAMES (schema / `keys:` mapping) and token LABELS at the edges of ^[\\w_]+$: a lone underscore, digits only, one character,
+    non-ASCII word characters and digits, forty characters.
+`describe()` states the spelled entries and, in meta["spellings"], which style each value was written in."""
 
 from __future__ import annotations
 
@@ -15,6 +28,107 @@ import p11emu
 
 UTC = timezone.utc
 START = datetime(2024, 1, 1, tzinfo=UTC)
+
+# sub-second components (microseconds) an instant may carry: either side of .5 (round-half-even differs from truncation on even AND
+# odd seconds), the smallest and the largest representable fraction
+SUBSECOND_US = (1, 400_000, 499_999, 500_000, 500_001, 600_000, 999_999)
+
+
+def pick_sub_us(r: Any) -> int:
+    """the microsecond component of an instant: a whole second four times out of ten, else one of SUBSECOND_US"""
+    return 0 if r.random() < 0.4 else r.choice(SUBSECOND_US)
+
+
+HEX_STYLES = ("upper", "lower", "mixed")
+
+
+def spell_hex(r: Any, text: str, style: str) -> str:
+    """a hexadecimal digest in one of the capitalisations ^[0-9a-fA-F]+$ allows"""
+    if style == "upper":
+        return text.upper()
+    if style == "lower":
+        return text.lower()
+    out = [(c.upper() if r.random() < 0.5 else c.lower()) for c in text]
+    letters = [i for i, c in enumerate(out) if c.isalpha()]
+    if len(letters) >= 2:  # really mixed: at least one letter of each case
+        out[letters[0]] = out[letters[0]].lower()
+        out[letters[-1]] = out[letters[-1]].upper()
+    return "".join(out)
+
+
+INSTANT_STYLES = ("+00:00", "Z", "offset", "naive", "space", "datetime-utc", "datetime-offset", "datetime-naive")
+NON_UTC_OFFSETS_MIN = (330, -480, 60, -30, 765)
+
+
+def spell_instant(r: Any, us: int, style: str) -> Any:
+    """The instant `us` (microseconds since the epoch, UTC) as a configuration value in one of the legal spellings: ISO 8601 text with
+    `+00:00` / `Z` / a non-UTC offset / no designator (= UTC) / a space instead of `T`, a sub-second part written with as few as
+    possible up to six digits; or the datetime object a YAML loader makes of an unquoted timestamp (aware UTC / other offset / naive)."""
+    off = r.choice(NON_UTC_OFFSETS_MIN) if style in ("offset", "datetime-offset") else 0
+    aware = lib.us_dt(us).astimezone(timezone(timedelta(minutes=off))) if off else lib.us_dt(us)
+    if style == "datetime-utc" or style == "datetime-offset":
+        return aware
+    if style == "datetime-naive":
+        return aware.replace(tzinfo=None)
+    frac = us % 10**6
+    text = aware.strftime("%Y-%m-%d %H:%M:%S" if style == "space" else "%Y-%m-%dT%H:%M:%S")
+    if frac:
+        digits = f"{frac:06d}".rstrip("0")
+        text += "." + digits + "0" * r.randrange(0, 7 - len(digits))
+    elif r.random() < 0.15:
+        text += r.choice([".0", ".000000"])
+    if style in ("naive", "space"):
+        return text
+    if style == "Z":
+        return text + "Z"
+    sign = "-" if off < 0 else "+"
+    return text + f"{sign}{abs(off) // 60:02d}:{abs(off) % 60:02d}"
+
+
+# names (schema actions, `keys:` mapping) and token labels at the edges of ^[\w_]+$ (BMP only)
+EDGE_WORDS = ("_", "0", "K_2", "\u043a\u043b\u044e\u0447", "\u00e91", "\uff4b", "x\u0663", "__", "9_9", "L" * 40, "k")
+
+
+def respell_entry(r: Any, entry: dict[str, Any], first_inception_us: int | None = None, last_expiration_us: int | None = None, window: bool = True) -> dict[str, str]:
+    """Rewrite a truthful `keys:` entry (ceremony.ksk_config_entry) IN PLACE in another legal spelling of the same facts and return
+    which styles were used.  `ds_sha256` (if present): upper / lower / mixed case.  `valid_from` / `valid_until` (with `window`): an
+    instant in any of INSTANT_STYLES -- far from the bundles (2010 / 2040, possibly with a sub-second part), or exactly the first
+    inception / the last expiration of the request (the window is inclusive), or one microsecond before / after those; `valid_until`
+    stays absent half of the time."""
+    used: dict[str, str] = {}
+    if entry.get("ds_sha256"):
+        st = r.choice(HEX_STYLES)
+        entry["ds_sha256"] = spell_hex(r, entry["ds_sha256"], st)
+        used["ds_sha256"] = st
+    if not window:
+        return used
+    far_from = lib.dt_us(datetime(2010, 1, 1, tzinfo=UTC)) + pick_sub_us(r)
+    far_until = lib.dt_us(datetime(2040, 1, 1, tzinfo=UTC)) + pick_sub_us(r)
+    x = r.random()
+    if first_inception_us is None or x < 0.6:
+        where, us = "far", far_from
+    elif x < 0.85:
+        where, us = "on-first-inception", first_inception_us
+    else:
+        where, us = "first-inception-1us", first_inception_us - 1
+    st = r.choice(INSTANT_STYLES)
+    entry["valid_from"] = spell_instant(r, us, st)
+    used["valid_from"] = f"{where}:{st}"
+    x = r.random()
+    if x < 0.5:
+        entry.pop("valid_until", None)
+        used["valid_until"] = "absent"
+    else:
+        if last_expiration_us is None or x < 0.7:
+            where, us = "far", far_until
+        elif x < 0.9:
+            where, us = "on-last-expiration", last_expiration_us
+        else:
+            where, us = "last-expiration+1us", last_expiration_us + 1
+        st = r.choice(INSTANT_STYLES)
+        entry["valid_until"] = spell_instant(r, us, st)
+        used["valid_until"] = f"{where}:{st}"
+    return used
 
 
 class Scenario:
@@ -33,6 +147,8 @@ class Scenario:
         self.token_edits: list[Any] = []  # callables(world) applied after the honest placement
         self.plan: dict[int, dict[str, Any]] = {}
         self.start = START
+        # per bundle (inception, expiration) MICROSECONDS added to the whole-second timeline start + 10 d * i (+ 21 d); None = none
+        self.sub_us: list[tuple[int, int]] | None = None
         self.validate_signatures = True
         self.wellformed = True
         self.req_id = "req-1"
@@ -78,7 +194,7 @@ class Scenario:
         )
 
     def request(self) -> Any:
-        req = C.honest_request(self.zsks, self.layout, start=self.start, zsk_ttl=self.zsk_ttl, req_id=self.req_id, bundle_prefix=self.req_id + "-bundle")
+        req = C.honest_request(self.zsks, self.layout, start=self.start, zsk_ttl=self.zsk_ttl, req_id=self.req_id, bundle_prefix=self.req_id + "-bundle", sub_us=self.sub_us)
         if self.extra_zsk_public:
             import base64
 
@@ -104,8 +220,9 @@ def pick_ksk_key(r: Any, alg: int, quick: bool) -> K.TestKey:
     return r.choice(K.rsa_keys(bits))
 
 
-def gen_scenario(r: Any, quick: bool = True, n_bundles: int | None = None, force_alg: int | None = None) -> Scenario:
-    """A well-formed scenario: signing is expected to complete."""
+def gen_scenario(r: Any, quick: bool = True, n_bundles: int | None = None, force_alg: int | None = None, start: datetime | None = None) -> Scenario:
+    """A well-formed scenario: signing is expected to complete.  `start`: the (whole-second part of the) first inception, when the
+    caller wants to place the timeline itself (it must be known here: key validity windows may be written exactly onto the timeline)."""
     sc = Scenario()
     n = n_bundles or r.choice([1, 1, 2, 2, 3, 3, 4, 9] if quick else [1, 2, 3, 4, 5, 6, 7, 8, 9])
     alg = force_alg or r.choice([8, 8, 8, 10, 10, 13, 14])
@@ -121,8 +238,22 @@ def gen_scenario(r: Any, quick: bool = True, n_bundles: int | None = None, force
         m = r.choice(sc.modules)
         m["slots"].insert(r.randrange(len(m["slots"]) + 1), {"id": 7, "login_ok": False})
     names = ["ka", "kb", "kc"][:nksk]
+    labels = ["K" + x for x in names]
+    if r.random() < 0.3:  # names at the edges of the KeyName pattern
+        names = r.sample(EDGE_WORDS, nksk)
+        labels = ["K" + x for x in names]
+    if r.random() < 0.3:  # labels at the edges of the pattern (distinct; a label becomes the key identifier in the SKR)
+        labels = r.sample(EDGE_WORDS, nksk)
+    # the timeline: whole-second start, and per bundle the microseconds inception / expiration carry on top
+    sc.start = start if start is not None else START + timedelta(days=r.randrange(0, 300), seconds=r.choice([0, 0, 1, 43200]))
+    if r.random() < 0.6:
+        sc.sub_us = [(pick_sub_us(r), pick_sub_us(r)) for _ in range(n)]
+    sub = sc.sub_us or [(0, 0)] * n
+    first_inc_us = lib.dt_us(sc.start) + sub[0][0]
+    last_exp_us = lib.dt_us(sc.start + timedelta(days=10) * (n - 1) + timedelta(days=21)) + sub[-1][1]
+    spellings: dict[str, dict[str, str]] = {}
     used_labels = set()
-    for name in names:
+    for name, label in zip(names, labels):
         # all KSKs of one scenario share the algorithm so that ZSK/KSK algorithm sets can agree;
         # sometimes mix RSA-SHA256 and RSA-SHA512 with matching ZSKs
         a = alg
@@ -135,7 +266,7 @@ def gen_scenario(r: Any, quick: bool = True, n_bundles: int | None = None, force
         s = r.choice(ok_slots)
         hh = r.choice([None, False, True, True])
         k = {
-            "label": "K" + name,
+            "label": label,
             "tk": tk,
             "alg": a,
             "module": m["path"],
@@ -145,6 +276,7 @@ def gen_scenario(r: Any, quick: bool = True, n_bundles: int | None = None, force
             "priv_has_pub_attrs": True,
         }
         k["entry"] = C.ksk_config_entry(k["label"], tk, a, with_tag=r.random() < 0.5, with_ds=r.random() < 0.5, hash_using_hsm=hh)
+        spellings[name] = respell_entry(r, k["entry"], first_inc_us, last_exp_us)
         sc.ksks[name] = k
     # schema: any subsets; at least one signer per slot so that algorithm sets agree
     for slot in range(1, n + 1):
@@ -180,12 +312,13 @@ def gen_scenario(r: Any, quick: bool = True, n_bundles: int | None = None, force
         sc.layout.append(idxs)
     sc.zsk_ttl = r.choice([3600, 172800, 0, 86400])
     sc.ksk_ttl = r.choice([172800, 172800, 3600, 7200])
-    sc.start = START + timedelta(days=r.randrange(0, 300), seconds=r.choice([0, 0, 1, 43200]))
     if n > 1 and r.random() < 0.5:
         sc.schema_listing = list(range(1, n + 1))
         while sc.schema_listing == sorted(sc.schema_listing):
             r.shuffle(sc.schema_listing)
-    sc.meta = {"n": n, "alg": alg, "nksk": nksk, "nmod": nmod, "nz": nz, "listing": "shuffled" if sc.schema_listing else "ascending"}
+    sc.meta = {"n": n, "alg": alg, "nksk": nksk, "nmod": nmod, "nz": nz, "listing": "shuffled" if sc.schema_listing else "ascending",
+               "sub_second": bool(sc.sub_us and any(a or b for a, b in sc.sub_us)), "spellings": spellings,
+               "names": "plain" if names == ["ka", "kb", "kc"][:nksk] else "pattern-edge", "labels": "plain" if labels == ["Kka", "Kkb", "Kkc"][:nksk] else "pattern-edge"}
     return sc
 
 
@@ -204,9 +337,11 @@ def special_scenarios(r: Any) -> list[Scenario]:
     def base(n: int, ksks: list[tuple[str, K.TestKey]], schema_of: Any) -> Scenario:
         sc = Scenario()
         sc.modules = [{"path": "emu0", "pin": "1234", "slots": [{"id": 0}]}]
+        spellings: dict[str, dict[str, str]] = {}
         for name, tk in ksks:
             k = {"label": "K" + name, "tk": tk, "alg": 8, "module": "emu0", "slot": 0, "priv_has_pub_attrs": True}
             k["entry"] = C.ksk_config_entry(k["label"], tk, 8, with_tag=True, with_ds=True, hash_using_hsm=r.choice([None, False, True]))
+            spellings[name] = respell_entry(r, k["entry"])  # DS capitalisation, window spelling (far from the bundles)
             sc.ksks[name] = k
         for slot in range(1, n + 1):
             sc.schema[slot] = schema_of(slot)
@@ -215,7 +350,7 @@ def special_scenarios(r: Any) -> list[Scenario]:
         sc.layout = [[0, 1]] + [[1]] * (n - 1)
         sc.zsk_ttl = r.choice([3600, 172800])
         sc.ksk_ttl = 172800
-        sc.meta = {"n": n, "alg": 8, "special": True}
+        sc.meta = {"n": n, "alg": 8, "special": True, "spellings": spellings}
         return sc
 
     for tk in sp["carry"]:
@@ -345,4 +480,5 @@ def describe(sc: Scenario) -> dict[str, Any]:
         "modules": sc.modules,
         "plan": {str(k): {kk: (vv if kk != "key" else "other-key") for kk, vv in v.items()} for k, v in sc.plan.items()},
         "start": sc.start.isoformat(),
+        "sub_us": sc.sub_us,
     }
